@@ -187,7 +187,9 @@ func (g *streamGen) fileText(nvals int) []byte {
 var constPats = []struct {
 	text  string
 	truth bool
-}{{"true", true}, {"false", false}, {"1", true}, {"0", false}, {`"x"`, true}, {`""`, false}, {"null", false}}
+}{{"true", true}, {"false", false}, {"1", true}, {"0", false}, {`"x"`, true}, {`""`, false}, {"null", false},
+	// regex literals containing comment and quote characters: the rest of the program must still be read as written
+	{`"zz" ~ /#'"[0-9]+/`, false}, {`"a#b" ~ /a#b/`, true}, {`"it's" ~ /'s$/`, true}, {`"q" !~ /"q"/`, true}, {`'#' ~ "#"`, true}}
 
 func (g *streamGen) pattern() *Pat {
 	t := g.t
@@ -433,6 +435,7 @@ func (g *streamGen) fault(fi int, data []byte, ref *RefResult, kinds []string) *
 	case "EIO":
 		f.Off = off()
 		f.WithData = t.Chance(1, 2)
+		f.ErrKind = []string{"", "", "", "wrapped-eof", "unexpected-eof", "wrapped-unexpected", "text-eof", "closed-pipe", "no-progress", "path-eof", "timeout"}[t.Draw(11)]
 	case "CORRUPT":
 		f.Off = off()
 		switch t.Weighted(4, 1, 1) {
